@@ -3,10 +3,11 @@
 # Confirms a seeded change in a scratch worktree: with the change the existing suite passes
 # (known failures aside) and the demo fails; without the change the demo passes.
 wt=$1; kind=$2   # kind: "integration" (tests/seed_demo.rs) or "unit:<filter>"
+feat=${SEED_FEATURES:+--features $SEED_FEATURES}   # e.g. SEED_FEATURES=sync for a demo gated on a cargo feature
 export CARGO_NET_OFFLINE=true CARGO_TARGET_DIR=$wt/target
 cd $wt || exit 2
 run_demo() {
-  if [ "$kind" = "integration" ]; then cargo test --offline --test seed_demo 2>&1 | tail -3
+  if [ "$kind" = "integration" ]; then cargo test --offline $feat --test seed_demo 2>&1 | tail -3
   else cargo test --offline --lib "${kind#unit:}" 2>&1 | tail -3; fi
 }
 echo "== with change: existing suite"
